@@ -165,10 +165,14 @@ Definition entry_words (t : table) (e : entry) : option (list N) :=
   read_words (area_fuel t) t (e_addr e) (tsize (e_type e)) false.
 Definition entry_area (t : table) (e : entry) : option (nat * area) := find_area (t_areas t) (e_addr e) 0.
 
+(* entry lookup by handle; handles beyond the table are never converted to unary numbers *)
+Definition entry_at (t : table) (idx : N) : option entry :=
+  if idx <? N.of_nat (length (t_entries t)) then nth_error (t_entries t) (N.to_nat idx) else None.
+
 (* register_setx *)
 Definition reg_setx (t : table) (idx : N) (v : rvalue) (checked : bool) : acc * table :=
   if negb (t_init t) then ((AUninit, idx), t) else
-  match nth_error (t_entries t) (N.to_nat idx) with
+  match entry_at t idx with
   | None => ((ANoEntry, idx), t)
   | Some e =>
       if checked && negb (validate (t_during t) e v) then ((ARange, e_addr e), t) else
@@ -184,7 +188,7 @@ Definition reg_setx (t : table) (idx : N) (v : rvalue) (checked : bool) : acc * 
 (* register_get: result, value *)
 Definition reg_get (t : table) (idx : N) : acc * option rvalue :=
   if negb (t_init t) then ((AUninit, idx), None) else
-  match nth_error (t_entries t) (N.to_nat idx) with
+  match entry_at t idx with
   | None => ((ANoEntry, idx), None)
   | Some e =>
       match entry_words t e with
